@@ -37,7 +37,7 @@ def run(ck):
             g["calls"] = [pcall(a, "list", extra=False) for a in FIT4]
             groups.append(g); ck.cat("dyadic")
     fam = gen.pack_families(ck.rng, 300 if q else 15000, maxn=12)
-    for g in fam:
+    for g in fam + gen.near_miss_families(ck.rng, 60 if q else 600, cover=False):
         g = dict(g)
         g["vals"] = g["vals"][:12]
         g["calls"] = [pcall(a, "list", extra=False) for a in FIT4]
